@@ -137,7 +137,7 @@ def tool_matrix(full):
 # ---------------------------------------------------------------------------------------------------------------------
 WORDS = {
     "plain": ["alpha", "Beta", "gamma_delta", "x1"],
-    "c_kw": ["if", "switch", "register", "default", "restrict", "_Bool", "typedef", "inline", "sizeof", "_Atomic", "return", "char", "long", "asm"],
+    "c_kw": ["if", "switch", "register", "default", "restrict", "_Bool", "typedef", "inline", "sizeof", "return", "_Atomic", "char", "long", "asm"],
     "cpp_kw": ["class", "namespace", "operator", "new", "this", "private", "typename", "delete", "nullptr", "constexpr", "static_assert",
                "friend", "virtual", "final", "co_await", "xor", "export", "thread_local"],
     "py_kw": ["def", "lambda", "None", "import", "global", "yield", "pass", "is", "in", "del", "from", "async", "match", "nonlocal", "with",
@@ -226,9 +226,13 @@ def to_s(cp):
 # ---------------------------------------------------------------------------------------------------------------------
 # namespace sets: {"id", "roots": [root dir names in generation order], "files": {"root/ns/T.1.0.dsdl": text}, "meta": {...}}
 # ---------------------------------------------------------------------------------------------------------------------
-def host_body(kind, field, const, extra_fields=(), extra_consts=()):
+FIELD_TYPES = {"u8": "uint8", "i64": "int64", "boolfix": "bool[5]", "boolvar": "bool[<=9]", "f32arr": "float32[<=3]", "na": "uint8"}
+FT_ORDER = ["boolfix", "boolvar", "f32arr", "i64", "u8"]
+
+
+def host_body(kind, field, const, extra_fields=(), extra_consts=(), ft="u8"):
     """DSDL text of the host type.  field/const may be None (not present)."""
-    f = ["uint8 %s" % field] if field else []
+    f = ["%s %s" % (FIELD_TYPES[ft], field)] if field else []
     f += ["uint8 %s" % x for x in extra_fields]
     c = ["uint16 %s = 1" % const] if const else []
     c += ["uint16 %s = 2" % x for x in extra_consts]
@@ -276,7 +280,8 @@ def name_case_set(case, word):
         elif pos == "const":
             xc = (pair[1],)
     ns = [root] + nested
-    files["/".join(ns + ["%s.1.0.dsdl" % tname])] = host_body(kind, field, const, xf, xc)
+    ft = case.get("ft", "na")
+    files["/".join(ns + ["%s.1.0.dsdl" % tname])] = host_body(kind, field, const, xf, xc, ft)
     if pair and pos == "type":
         files["/".join(ns + ["%s.1.0.dsdl" % pair[1]])] = host_body("struct", "phi", "KAPPA")
     if pair and pos == "nested_ns":
@@ -288,7 +293,7 @@ def name_case_set(case, word):
         files["uroot/User.1.0.dsdl"] = dep + "%s.1.0 h\n%s.1.0[<=2] hv\n%s.1.0[2] hf\nuint8 tail\n@sealed\n" % (full, full, full)
         files["uroot/deep/UserU.1.0.dsdl"] = dep + "@union\n%s.1.0 h\nuint8 other\n@extent 4000000 * 8\n" % full
         roots = ["uroot", root]  # the dependant first: the dependency's root is generated by a later run
-    key = "%s|%s|%s|%s" % (pos, cls, kind, "/".join(pair) if pair else w)
+    key = "%s|%s|%s|%s" % (pos if ft == "na" else "field:" + ft, cls, kind, "/".join(pair) if pair else w)
     return {"id": "n-" + sha(key)[:10], "roots": roots, "files": files, "meta": {"src": "names", "pos": pos, "cls": cls, "kind": kind, "word": w,
                                                                                "key": key}}
 
@@ -1219,38 +1224,50 @@ def emit_names(ctx):
 
 def select_name_cases(ctx, cases):
     """quick: a deterministic covering subset - every (position, class) with the kind rotating, and every (kind, position) for the
-    positions the kind-specific templates treat differently with class and word rotating - independent of the seed."""
-    cases = sorted(cases, key=lambda c: (c["pos"], c["cls"], c["w"], c["kind"]))
+    positions the kind-specific templates treat differently with class and word rotating - independent of the seed.
+    thorough: the whole product for the first word of every class, every further word with the kind rotating.
+    The attribute type of a field case rotates with the class / kind so that every class meets every attribute type."""
+    cases = sorted(cases, key=lambda c: (c["pos"], c["cls"], c["w"], c["kind"], c["ft"]))
+    clss = sorted({c["cls"] for c in cases})
+    kinds = sorted({c["kind"] for c in cases if c["kind"] != "empty"})
+
+    def ft_is(c, idx):
+        return c["pos"] != "field" or c["ft"] == FT_ORDER[idx % len(FT_ORDER)]
+
     if not ctx.quick:
-        # thorough: the whole product for the first word of every class, further words with the kind rotating
-        res, n = [], 0
+        res = []
         by = {}
         for c in cases:
             if c["w"] <= 1:
-                res.append(c)
+                ci, fi = clss.index(c["cls"]), (FT_ORDER.index(c["ft"]) if c["ft"] in FT_ORDER else 0)
+                # every (class, kind) with the attribute type rotating + every (class, attribute type) with the kind rotating
+                if c["pos"] != "field" or ft_is(c, ci + kinds.index(c["kind"])) or c["kind"] == kinds[(ci + fi) % len(kinds)]:
+                    res.append(c)
             else:
                 by.setdefault((c["pos"], c["cls"], c["w"]), []).append(c)
         for n, (k, lst) in enumerate(sorted(by.items())):
-            res.append(lst[n % len(lst)])
+            res.append(lst[(n * 7) % len(lst)])
         return res
-    kinds = sorted({c["kind"] for c in cases})
     by = {}
     for c in cases:
-        by.setdefault((c["pos"], c["cls"], c["w"]), []).append(c)
+        if c["w"] == 1 and ft_is(c, clss.index(c["cls"])):
+            by.setdefault((c["pos"], c["cls"]), []).append(c)
     sel = {}
+
+    def put(c):
+        sel[(c["pos"], c["cls"], c["w"], c["kind"], c["ft"])] = c
+
     for n, (k, lst) in enumerate(sorted(by.items())):
-        if k[2] > 1:
-            continue
-        c = lst[n % len(lst)]
-        sel[(c["pos"], c["cls"], c["w"], c["kind"])] = c
+        if k[0] == "field":  # the plain structure is the main path of a field; the other kinds meet fields in the loop below
+            lst = [c for c in lst if c["kind"] == "struct"] or lst
+        put(lst[n % len(lst)])
     by2 = {}
     for c in cases:
-        if c["pos"] in ("type", "field", "const"):  # the positions the kind-specific templates treat differently
-            by2.setdefault((c["kind"], c["pos"]), []).append(c)
+        if c["pos"] in ("type", "field", "const") and (c["kind"] == "empty" or ft_is(c, kinds.index(c["kind"]) + 2)):
+            by2.setdefault((c["kind"], c["pos"]), []).append(c)  # the positions the kind-specific templates treat differently
     for n, (k, lst) in enumerate(sorted(by2.items())):
         lst = [c for c in lst if c["w"] == 2 + n % 2] or lst
-        c = lst[(n * 5) % len(lst)]
-        sel[(c["pos"], c["cls"], c["w"], c["kind"])] = c
+        put(lst[(n * 5) % len(lst)])
     return [sel[k] for k in sorted(sel)]
 
 
